@@ -254,7 +254,7 @@ def run_native(c, params, clause, uf_tables):
         if clause is not None:
             code, olds = native_clause(clause, c, ns)
         try:
-            res = f(**params)
+            res = f(**{k: v for k, v in params.items() if k not in c.ghost})    # ghost parameters exist in the contract only
             out['result'] = repr(res)[:200]
         except BaseException as e:   # noqa
             out['raised'] = type(e).__name__
@@ -333,6 +333,12 @@ class UFTable(object):
                 rd = table.lookup(kd)
                 table.entries.append([kd, rd])
                 return table.rebuilder.val(rd)
+            if tgt is not None:
+                # the counter-model does not constrain this application: fall back to the real callee
+                res = tgt(*args, **kw)
+                if inspect.isgenerator(res):
+                    res = list(res)
+                return res
             return None
         return patched
 
@@ -457,6 +463,12 @@ def rerun(path):
     clause = c.ensures.get(rec['obligation'])
     out = run_native(c, concrete, clause, tables)
     print('native run: %s' % (out,))
-    bad = (out['clause_value'] is False) if clause else (out['raised'] is not None)
+    if clause:
+        bad = out['clause_value'] is False
+    elif rec.get('kind') == 'noexc' and '.' in rec['obligation']:
+        # noexc.<Exception>@line: the same exception class has to escape natively
+        bad = out['raised'] == rec['obligation'].split('.', 1)[1].split('@')[0]
+    else:
+        bad = out['raised'] is not None
     print('clause falsified natively' if bad else 'clause NOT falsified natively')
     return 1 if bad else 0
